@@ -69,26 +69,21 @@ MUST_REACH = ['debian.deb822:Deb822._internal_parser',
 DOCS = {'quick': 3600, 'thorough': 200000}      # random documents (TOTAL over shards); + the enumerated grid
 
 FLOORS = {
-    'quick': {'nontrivial': 1200,
-              'monitors': {'M': 120000, 'M.armour': 50000, 'M.comments': 60000, 'M.lead': 60000},
-              'counters': {'feat:first-trailing-blank': 300, 'feat:first-starts-colon': 60, 'feat:first-starts-hash': 60,
-                           'feat:cont-starts-hash': 100, 'feat:cont-trailing-blank': 300, 'feat:cont-keyvalue-shaped': 100,
-                           'feat:cont-marker-lookalike': 60, 'feat:nonascii': 300, 'feat:marker-trailing-blank-or-cr': 20000,
-                           'api:Dsc': 10000, 'api:Changes': 10000, 'api:Deb822': 40000, 'api:iter_paragraphs': 60000,
-                           'dump:str': 200, 'dump:fd_b': 200, 'dump:fd_b_enc': 200, 'dump:fd_t': 200,
-                           'doc:paragraphs>=2': 500}},
-    'thorough': {'nontrivial': 60000,
-                 'monitors': {'M': 5000000, 'M.armour': 2000000, 'M.comments': 2500000, 'M.lead': 2500000},
-                 'counters': {'feat:first-trailing-blank': 15000, 'feat:first-starts-colon': 3000,
-                              'feat:first-starts-hash': 3000, 'feat:cont-starts-hash': 5000,
-                              'feat:cont-trailing-blank': 15000, 'feat:cont-keyvalue-shaped': 5000,
-                              'feat:cont-marker-lookalike': 3000, 'feat:nonascii': 15000,
-                              'feat:marker-trailing-blank-or-cr': 800000,
-                              'api:Dsc': 400000, 'api:Changes': 400000, 'api:Deb822': 1500000,
-                              'api:iter_paragraphs': 2500000,
-                              'dump:str': 10000, 'dump:fd_b': 10000, 'dump:fd_b_enc': 10000, 'dump:fd_t': 10000,
-                              'doc:paragraphs>=2': 30000}},
+    # ~50% of what a run on the current tree measures (seed 0)
+    'quick': {'nontrivial': 2000,
+              'monitors': {'M': 180000, 'M.armour': 100000, 'M.comments': 90000, 'M.lead': 90000},
+              'counters': {'feat:first-trailing-blank': 8000, 'feat:first-starts-colon': 1300,
+                           'feat:first-starts-hash': 1200, 'feat:cont-starts-hash': 3400,
+                           'feat:cont-trailing-blank': 12000, 'feat:cont-keyvalue-shaped': 3000,
+                           'feat:cont-marker-lookalike': 900, 'feat:nonascii': 6500, 'feat:multi-line-value': 8000,
+                           'feat:marker-trailing-blank-or-cr': 26000,
+                           'api:Dsc': 27000, 'api:Changes': 27000, 'api:Deb822': 54000, 'api:iter_paragraphs': 79000,
+                           'dump:str': 500, 'dump:fd_b': 500, 'dump:fd_b_enc': 500, 'dump:fd_t': 500,
+                           'doc:paragraphs>=2': 1000}},
 }
+FLOORS['thorough'] = {'nontrivial': 90000,
+                      'monitors': dict((k, v * 45) for k, v in FLOORS['quick']['monitors'].items()),
+                      'counters': dict((k, v * 45) for k, v in FLOORS['quick']['counters'].items())}
 
 CONTAINERS = ('str', 'bytes', 'lines_nl', 'lines_nonl', 'textio', 'bytesio')
 DUMP_MODES = ('str', 'fd_b', 'fd_b_enc', 'fd_t')
